@@ -457,6 +457,20 @@ class Fresh:
                 lv = [k[1] for k in lv if k and k[0] == "stream"]
                 if lv:
                     return ("zipstream", min(lv), False)
+            if tail == "copy" and not e.args and isinstance(e.func, ast.Attribute):
+                k = self.kind_level(e.func.value, st)
+                if k and k[0] == "stream":
+                    return ("stream", k[1], True)  # a new list holding the same elements
+            if tail == "shuffle" and e.args:  # rng.shuffle(stream[, inplace]) re-orders, elements unchanged
+                k = self.kind_level(e.args[0], st)
+                if k and k[0] == "stream":
+                    return ("stream", k[1], True)
+        if isinstance(e, ast.IfExp):
+            a, b = self.kind_level(e.body, st), self.kind_level(e.orelse, st)
+            if a and b and a[0] == b[0] == "stream":
+                return ("stream", min(a[1], b[1]), a[2] and b[2])
+            if a and a[0] == "stream" and isinstance(e.orelse, ast.Call) and call_name(e.orelse) in ("list",):
+                return a
         if isinstance(e, ast.Subscript) and isinstance(e.value, ast.Call) and call_name(e.value) == "peek_first":
             k = self.kind_level(e.value, st)
             if k:
